@@ -226,7 +226,8 @@ def certify (a : Acc) : IO Acc := do
   let herm := maxDiff H (adjoint H)
   let mut a := a.bump "eigensystems_certified"
   if herm > 1.0e-12 * hn then a ← fail a "C04" s!"Hamiltonian matrix is not Hermitian (max |H - H†| = {herm})"
-  if res > 1.0e-9 * hn then a ← fail a "C03" s!"reported eigenvectors do not satisfy H v = E v on the full Fock space (residual {res})"
+  -- backward error relative to the size of H itself (a model whose couplings are all tiny must be diagonalised as well)
+  if res > 1.0e-9 * (maxAbs H + 1.0e-300) then a ← fail a "C03" s!"reported eigenvectors do not satisfy H v = E v on the full Fock space (residual {res})"
   if orth > 1.0e-9 then a ← fail a "C03" s!"reported eigenvectors are not orthonormal (max deviation {orth})"
   -- ascending order inside every block
   for b in List.range s.blocks.size do
